@@ -118,4 +118,13 @@ META = {
     design_ref='DESIGN.md 6/C01',
     note='Lineage = UUID carried through the stages (fan-out appends .a/.b). The oracle needs no hooks; yield injection at the hook points perturbs schedules.',
     technique='TLC model checking (safety + liveness) of the pipeline protocol + fault-enumeration trace validation on real Router/GoChannel pipelines'),
+ 'C14': dict(
+    text='Dedup.tla models the repository (mutex, lookup+insert in one critical section, clean-up ticks) for 4 callers x 2 keys: AtMostOneFirst per key and retention epoch; the '
+         'split-critical-section design is rejected. Real Deduplicators (middleware and publisher decorator) are used by 1..32 goroutines; every presentation is logged with '
+         'conservative time stamps and DedupTrace.tla judges each history: a presentation reaches the handler iff it was not suppressed (suppressed ones are acked successes), two '
+         'accepted presentations of one key are at least a window apart, a suppressed one has a live accepted presentation of the same key; window-edge trials present a key again '
+         '60-560 us before its window ends; built-in hashers are checked on random payload pairs around the 64-byte read limit',
+    design_ref='DESIGN.md 6/C14',
+    note='All timing rules are necessary conditions with conservative stamps (no alarm from scheduling noise); hasher laws are sampled (seeded random bytes), not exhaustive.',
+    technique='TLC model checking of the key repository + trace validation of timed concurrent histories against pairwise necessary conditions in TLA+'),
 }
